@@ -11,7 +11,6 @@ require (
 	go.opentelemetry.io/collector/exporter/exportertest v0.124.0
 	go.opentelemetry.io/collector/extension/xextension v0.124.0
 	go.opentelemetry.io/collector/pdata v1.30.0
-	go.opentelemetry.io/collector/pipeline v0.124.0
 	go.opentelemetry.io/otel/sdk/metric v1.35.0
 )
 
@@ -44,6 +43,7 @@ require (
 	go.opentelemetry.io/collector/featuregate v1.30.0 // indirect
 	go.opentelemetry.io/collector/internal/telemetry v0.124.0 // indirect
 	go.opentelemetry.io/collector/pdata/pprofile v0.124.0 // indirect
+	go.opentelemetry.io/collector/pipeline v0.124.0 // indirect
 	go.opentelemetry.io/collector/receiver v1.30.0 // indirect
 	go.opentelemetry.io/collector/receiver/receivertest v0.124.0 // indirect
 	go.opentelemetry.io/collector/receiver/xreceiver v0.124.0 // indirect
